@@ -12,6 +12,7 @@
     (names duplicate-free and exactly the keys of ctxMap, every context has a document and `*`).
 -/
 import YtkModel.Generated.Constants
+import YtkProofs.DocSetFiles
 import YtkProofs.DocSet
 import YtkProofs.DecisionsDocSet
 import YtkProofs.FuncsDomDocSet
@@ -376,5 +377,104 @@ theorem containsAnyOf_generated_eq_model (col cs : List String) :
 theorem nonvacuous_containsAnyOf_generated :
     FuncsAnalytics.containsAnyOf ["x", "prod"] ["prod", "dev"] = true ∧ FuncsAnalytics.containsAnyOf ["x"] ["prod"] = false := by
   decide +kernel
+/-! ## The file walkers of the document set (brief mext7c): AddDocumentFromFile, AddDocumentsFromDirectory,
+    AddDocumentsFromManifest over the model of YtkModel/DocSetFiles.lean.  Each found file / manifest item is
+    one `DocSet.step` of the model above. -/
+end Ytk.C18
+
+namespace Ytk.C18
+open Ytk.DocSet Ytk.DocSetFiles
+
+section files
+variable {δ : Type}
+
+/-- AddDocumentsFromDirectory when every listed file loads and no add fails: the resulting set is the fold of
+    `DocSet.step` over the files IN THE ORDER filepath.Glob RETURNED THEM, each registered under its file name -/
+theorem directory_eq_fold (glob : String → Option (List String)) (load : String → Outcome δ) (opts : List Opt)
+    (s : State δ) (pattern : String) (docs : List (String × δ))
+    (hg : glob pattern = some (docs.map (·.1)))
+    (hl : ∀ p ∈ docs, load p.1 = .ok p.2)
+    (hs : ∀ (s : State δ) (p : String × δ), p ∈ docs → (step s (.addFromReader p.1 (some p.2) opts)).2 = false) :
+    addFromDirectory glob load opts s pattern = (run s (fileOps opts docs), .ok ()) := by
+  simp only [addFromDirectory, hg]
+  exact addFiles_all_ok load opts docs s hl hs
+
+/-- FIRST FAILURE STOPS: the files before the failing one are in the set (in order), the error (or the panic of
+    a nil decoder) is what the call ends with, and nothing after the failing file is looked at — `post` is arbitrary -/
+theorem directory_first_failure_stops (load : String → Outcome δ) (opts : List Opt) (s : State δ)
+    (pre : List (String × δ)) (f : String) (post : List String)
+    (hl : ∀ p ∈ pre, load p.1 = .ok p.2)
+    (hs : ∀ (s : State δ) (p : String × δ), p ∈ pre → (step s (.addFromReader p.1 (some p.2) opts)).2 = false) :
+    (load f = .err → addFiles load opts s (pre.map (·.1) ++ f :: post) = (run s (fileOps opts pre), .err)) ∧
+    (load f = .panic → addFiles load opts s (pre.map (·.1) ++ f :: post) = (run s (fileOps opts pre), .panic)) := by
+  have h := addFiles_all_ok load opts pre s hl hs
+  constructor <;> intro hf <;> rw [addFiles_append, h] <;> simp [addFiles, addFromFile, hf]
+
+/-- a failing AddDocument (MustCreate on a name that is already there) stops the walk the same way -/
+theorem directory_stops_on_failed_add (load : String → Outcome δ) (opts : List Opt) (s : State δ)
+    (f : String) (d : δ) (post : List String) (hf : load f = .ok d)
+    (he : (step s (.addFromReader f (some d) opts)).2 = true) :
+    addFiles load opts s (f :: post) = ((step s (.addFromReader f (some d) opts)).1, .err) := by
+  simp only [addFiles, addFromFile, hf]
+  rcases hst : step s (.addFromReader f (some d) opts) with ⟨s', b⟩
+  rw [hst] at he; simp only at he; subst he; rfl
+
+/-- a bad pattern: the error is returned and the set is untouched -/
+theorem directory_bad_pattern (glob : String → Option (List String)) (load : String → Outcome δ) (opts : List Opt)
+    (s : State δ) (pattern : String) (hg : glob pattern = none) :
+    addFromDirectory glob load opts s pattern = (s, .err) := by
+  simp [addFromDirectory, hg]
+
+/-- AddDocumentsFromManifest never returns an error once the manifest itself was loaded: whatever order List()
+    yields the items in, an item that does not decode (or whose add fails) is silently skipped -/
+theorem manifest_errors_are_dropped (loadManifest : String → Outcome K8s.Manifest) (decode : String → String → Outcome δ)
+    (opts : List Opt) (visit : K8s.Manifest → List String) (s : State δ) (manifest : String) (m : K8s.Manifest)
+    (hm : loadManifest manifest = .ok m) :
+    (addFromManifestIn loadManifest decode opts visit s manifest).2 ≠ .err := by
+  simp only [addFromManifestIn, hm]
+  exact addItems_never_err decode opts manifest m (visit m) s
+
+/-- an item that does not decode leaves the set as it is and the walk goes on with the next item -/
+theorem manifest_skips_undecodable (decode : String → String → Outcome δ) (opts : List Opt) (manifest : String)
+    (m : K8s.Manifest) (s : State δ) (item text : String) (rest : List String)
+    (hg : K8s.strGet m item = some text) (hd : decode item text = .err) :
+    addItems decode opts manifest m s (item :: rest) = addItems decode opts manifest m s rest := by
+  simp [addItems, hg, hd]
+
+end files
+
+/-! ### non-vacuity, and what depends on the order -/
+
+def exLoad : String → Outcome Nat
+  | "a.yaml" => .ok 1
+  | "b.yaml" => .ok 2
+  | "c.txt" => .panic
+  | "d.yaml" => .ok 4
+  | _ => .err
+
+/-- three files, the second broken: the first is in the set, the third was never opened -/
+theorem nonvacuous_directory :
+    (addFiles exLoad [] (init : State Nat) ["a.yaml", "b.yaml", "d.yaml"]).1.names = ["a.yaml", "b.yaml", "d.yaml"] ∧
+    (addFiles exLoad [] (init : State Nat) ["a.yaml", "broken.yaml", "d.yaml"]).1.names = ["a.yaml"] ∧
+    (addFiles exLoad [] (init : State Nat) ["a.yaml", "broken.yaml", "d.yaml"]).2 = .err ∧
+    (addFiles exLoad [] (init : State Nat) ["a.yaml", "c.txt", "d.yaml"]).2 = .panic ∧
+    (addFiles exLoad [.mustCreate] (init : State Nat) ["a.yaml", "a.yaml", "d.yaml"]).2 = .err := by
+  decide
+
+def exManifest : K8s.Manifest := { (default : K8s.Manifest) with str := [("x.yaml", "1"), ("y.yaml", "bad"), ("z.yaml", "3")] }
+def exDecode : String → String → Outcome Nat := fun _ t => if t = "bad" then .err else .ok t.toList.length
+
+/-- the undecodable item is skipped without an error; the names are `manifest/item` -/
+theorem nonvacuous_manifest :
+    (addItems exDecode [] "m" exManifest (init : State Nat) ["x.yaml", "y.yaml", "z.yaml"]).1.names = ["m/x.yaml", "m/z.yaml"] ∧
+    (addItems exDecode [] "m" exManifest (init : State Nat) ["x.yaml", "y.yaml", "z.yaml"]).2 = .ok () := by
+  decide
+
+/-- the insertion order of the set — the layer order of every later view — is the order List() returned the items
+    in: Go's map iteration order.  Two visiting orders of the SAME manifest give sets with different layer orders. -/
+theorem manifest_layer_order_is_visit_order :
+    (addItems exDecode [] "m" exManifest (init : State Nat) ["x.yaml", "z.yaml"]).1.names = ["m/x.yaml", "m/z.yaml"] ∧
+    (addItems exDecode [] "m" exManifest (init : State Nat) ["z.yaml", "x.yaml"]).1.names = ["m/z.yaml", "m/x.yaml"] := by
+  decide
 
 end Ytk.C18
